@@ -24,6 +24,13 @@ def run(ctx, rep):
     rep.configs.append("default")
     for impl in ("mapper", "cache"):
         TR.check_text_api(fx, rep, "C07.1", impl)
+    # premise of "a line that cannot be remapped is passed through": what remap_frame answers for a parsed frame line is the
+    # per-entry decision of the frame iterators (range filter included), in both implementations
+    import readers as RD
+    for impl in ("mapper", "cache"):
+        wl, wo = RD.iterator_roles(fx, rep, "C07.R", impl)
+        if wl:
+            RD.check_with_lines(fx, rep, "C07.R", impl, wl, "C07.R")
     TR.check_format_helpers(fx, rep, "C07.2")
     TR.check_display_templates(fx, rep, "C07.4")
     TR.check_classifiers(fx, rep, "C07.6")
